@@ -9,6 +9,7 @@ pub mod c04;
 pub mod c05;
 pub mod c07;
 pub mod c08;
+pub mod c09;
 pub mod c10;
 pub mod c11;
 pub mod c12;
@@ -55,6 +56,17 @@ pub fn cfg_for(gen_name: &str) -> GenCfg {
             c.max_ops = 60;
             c.customs = 0;
             c.tags = false;
+            c
+        }
+        "par-many" => {
+            // many functions, equal-sized runs and a heavy tail
+            let mut c = GenCfg::full();
+            c.big_offsets = false;
+            c.max_funcs = 400;
+            c.min_funcs = 1;
+            c.max_ops = 12;
+            c.customs = 0;
+            c.names = 1;
             c
         }
         "manyfuncs" => {
@@ -110,7 +122,7 @@ pub struct PropDef {
 }
 
 pub fn all() -> Vec<PropDef> {
-    vec![c02::def(), c03::def(), c04::def(), c05::def(), c07::def(), c08::def(), c10::def(), c11::def(), c12::def(), c13::def(), c14::def(), c15::def(), c16::def(), c17::def(), c19::def(), c20::def()]
+    vec![c02::def(), c03::def(), c04::def(), c05::def(), c07::def(), c08::def(), c09::def(), c10::def(), c11::def(), c12::def(), c13::def(), c14::def(), c15::def(), c16::def(), c17::def(), c19::def(), c20::def()]
 }
 
 pub fn get(id: &str) -> Option<PropDef> {
